@@ -184,7 +184,7 @@ func TestVerifC14(t *testing.T) {
 						desc := fmt.Sprintf("middleware age=%v skew=%v expiration=request time%+v-skew handler wrapped at construction=%v", age, skew, rel, wrapEarly)
 						var exp time.Time
 						verifier := func(ctx context.Context, token string, r *http.Request) (*TokenInfo, error) {
-							return &TokenInfo{Expiration: exp, UserID: "u"}, nil
+							return &TokenInfo{Expiration: exp, UserID: c14UserID}, nil
 						}
 						ran := 0
 						inner := http.HandlerFunc(func(w http.ResponseWriter, r *http.Request) { ran++ })
@@ -296,7 +296,7 @@ func c14Sequence(cases *verifx.Cases, idx int, now time.Time, req []string, gran
 	opts := &RequireBearerTokenOptions{Scopes: req, ResourceMetadataURL: "https://rs.example/.well-known/oauth-protected-resource"}
 	current := 0
 	verifier := func(ctx context.Context, token string, r *http.Request) (*TokenInfo, error) {
-		return &TokenInfo{Scopes: slices.Clone(grantedSets[current]), Expiration: now.Add(time.Hour), UserID: "u"}, nil
+		return &TokenInfo{Scopes: slices.Clone(grantedSets[current]), Expiration: now.Add(time.Hour), UserID: c14UserID}, nil
 	}
 	ran := 0
 	mw := RequireBearerToken(verifier, opts)(http.HandlerFunc(func(w http.ResponseWriter, r *http.Request) { ran++ }))
@@ -422,7 +422,7 @@ func c14One(cases *verifx.Cases, idx int, now time.Time, h c14Header, vo string,
 		}
 		return fmt.Sprintf("header=%s verifier=%s required=%v granted=%v exp=%s skew=%v allowMissing=%v optsNil=%v url=%q%s", h.name, vo, req, gr, exName, skew, allowMissing, optsNil, url, st)
 	}
-	info := &TokenInfo{Scopes: gr, Expiration: exp, UserID: "u"}
+	info := &TokenInfo{Scopes: gr, Expiration: exp, UserID: c14UserID}
 	verifierCalls := 0
 	var verifierToken string
 	verifier := func(ctx context.Context, token string, r *http.Request) (*TokenInfo, error) {
@@ -536,7 +536,7 @@ func c14One(cases *verifx.Cases, idx int, now time.Time, h c14Header, vo string,
 				fail("wrong-token-info", "the handler saw TokenInfo %p, the verifier returned %p", seen, info)
 				return false
 			}
-			if !seen.Expiration.Equal(exp) || !slices.Equal(seen.Scopes, gr) || seen.UserID != "u" {
+			if !seen.Expiration.Equal(exp) || !slices.Equal(seen.Scopes, gr) || seen.UserID != c14UserID {
 				fail("token-info-altered", "the handler saw TokenInfo %+v, the verifier established expiration %v scopes %v", *seen, exp, gr)
 				return false
 			}
@@ -627,3 +627,6 @@ type c14SilentError struct{ is error }
 
 func (c14SilentError) Error() string   { return "" }
 func (e c14SilentError) Unwrap() error { return e.is }
+
+// c14UserID: what a verifier reports is handed on as it is - letter case and padding included.
+const c14UserID = " Kim.Doe@Example.COM "
